@@ -9,6 +9,7 @@
      load_nt_n n                parse_ntriples_and_add with chunks of n lines (the code: n = 1000)
      den x                      the lexical quad set of a database (decode_any over all quads)
      db_ok x                    the dictionary invariant of the prior database + every stored id decodes
+     db_okq x                   db_ok x and the invariant of the quoted-triple store (qts_ok)
      lq_of4 q                   a document quad as `den` reports it
      known_C13_*                the decidable classes of the known findings              (Classes.v) *)
 Require Import KV.Codec13.Model KV.Codec13.Spec KV.Codec13.Wf KV.Codec13.WfTtl KV.Codec13.Classes KV.Codec13.Inv KV.Codec13.Witness.
@@ -25,16 +26,17 @@ Proof. exact chunking_nt. Qed.
 Print Assumptions C13_chunking.
 
 (* (2) N-Triples.  For EVERY document of the subset (any number of lines, blank lines, comments, any
-   white space, IRIs, blank nodes, literals with every escape form, language tags, datatypes), EVERY
-   chunk size, and EVERY prior database that satisfies the dictionary invariant and has room for the
-   new identifiers: the loaded database satisfies the invariant again and denotes exactly the prior
+   white space, IRIs, blank nodes, literals with every escape form, language tags, datatypes, and one-level
+   quoted triples `<< s p o >>` whose components are IRIs, blank nodes, plain or typed literals), EVERY
+   chunk size, and EVERY prior database that satisfies the dictionary and quoted-triple-store invariants and
+   has room for the new identifiers: the loaded database satisfies the invariants again and denotes exactly the prior
    quads plus the quads the document says - unless the document has a literal of the re-cleaning
    class (finding C13-literal-recleaned). *)
 Theorem C13_ntriples :
   forall (n : nat) (doc : list item) (x : db),
-    (1 <= n)%nat -> wf_doc_nt doc = true -> known_C13_reclean doc = false -> db_ok x ->
-    next_id (d_dict x) + 4 * N.of_nat (length (triples_of doc)) <= QBIT ->
-    db_ok (load_nt_n n (render_doc doc) x) /\
+    (1 <= n)%nat -> wf_doc_nt doc = true -> known_C13_reclean doc = false -> db_okq x ->
+    next_id (d_dict x) + 10 * N.of_nat (length (triples_of doc)) <= QBIT ->
+    db_okq (load_nt_n n (render_doc doc) x) /\
     forall lq, In lq (den (load_nt_n n (render_doc doc) x)) <-> In lq (den x) \/ In lq (map lq_of4 (triples_of doc)).
 Proof. exact ntriples_main. Qed.
 Print Assumptions C13_ntriples.
@@ -42,9 +44,9 @@ Print Assumptions C13_ntriples.
 (* the code's own chunk size *)
 Theorem C13_ntriples_1000 :
   forall (doc : list item) (x : db),
-    wf_doc_nt doc = true -> known_C13_reclean doc = false -> db_ok x ->
-    next_id (d_dict x) + 4 * N.of_nat (length (triples_of doc)) <= QBIT ->
-    db_ok (load_nt (render_doc doc) x) /\
+    wf_doc_nt doc = true -> known_C13_reclean doc = false -> db_okq x ->
+    next_id (d_dict x) + 10 * N.of_nat (length (triples_of doc)) <= QBIT ->
+    db_okq (load_nt (render_doc doc) x) /\
     forall lq, In lq (den (load_nt (render_doc doc) x)) <-> In lq (den x) \/ In lq (map lq_of4 (triples_of doc)).
 Proof. exact ntriples_1000. Qed.
 Print Assumptions C13_ntriples_1000.
@@ -52,9 +54,9 @@ Print Assumptions C13_ntriples_1000.
 (* (3) N-Quads, with named graphs (IRIs or blank nodes) and default-graph statements mixed. *)
 Theorem C13_nquads :
   forall (doc : list item) (x : db),
-    wf_doc_nq doc = true -> known_C13_reclean doc = false -> db_ok x ->
-    next_id (d_dict x) + 4 * N.of_nat (length (triples_of doc)) <= QBIT ->
-    db_ok (load_nq (render_doc doc) x) /\
+    wf_doc_nq doc = true -> known_C13_reclean doc = false -> db_okq x ->
+    next_id (d_dict x) + 10 * N.of_nat (length (triples_of doc)) <= QBIT ->
+    db_okq (load_nq (render_doc doc) x) /\
     forall lq, In lq (den (load_nq (render_doc doc) x)) <-> In lq (den x) \/ In lq (map lq_of4 (triples_of doc)).
 Proof. exact nquads_main. Qed.
 Print Assumptions C13_nquads.
@@ -64,16 +66,16 @@ Print Assumptions C13_nquads.
    and a term new to the dictionary gets an identifier that denoted nothing before. *)
 Theorem C13_ids_stable :
   forall (n : nat) (doc : list item) (x : db),
-    (1 <= n)%nat -> wf_doc_nt doc = true -> known_C13_reclean doc = false -> db_ok x ->
-    next_id (d_dict x) + 4 * N.of_nat (length (triples_of doc)) <= QBIT ->
+    (1 <= n)%nat -> wf_doc_nt doc = true -> known_C13_reclean doc = false -> db_okq x ->
+    next_id (d_dict x) + 10 * N.of_nat (length (triples_of doc)) <= QBIT ->
     forall i s, decode_any x i = Some s -> decode_any (load_nt_n n (render_doc doc) x) i = Some s.
 Proof. exact ntriples_ids_stable. Qed.
 Print Assumptions C13_ids_stable.
 
 Theorem C13_ids_stable_nquads :
   forall (doc : list item) (x : db),
-    wf_doc_nq doc = true -> known_C13_reclean doc = false -> db_ok x ->
-    next_id (d_dict x) + 4 * N.of_nat (length (triples_of doc)) <= QBIT ->
+    wf_doc_nq doc = true -> known_C13_reclean doc = false -> db_okq x ->
+    next_id (d_dict x) + 10 * N.of_nat (length (triples_of doc)) <= QBIT ->
     forall i s, decode_any x i = Some s -> decode_any (load_nq (render_doc doc) x) i = Some s.
 Proof. exact nquads_ids_stable. Qed.
 Print Assumptions C13_ids_stable_nquads.
@@ -143,15 +145,19 @@ Print Assumptions C13_turtle_tagged_regression.
 (* Turtle, one statement per line, written `s p o .` with any white space or as a predicate/object list
    `s p o , o ; p o .` with single blanks (IRIs that are http(s):// or colon-free, prefixed names, blank nodes with
    alphanumeric labels, literals - plain, language-tagged or typed, every escape form - whose value has no ':' and
-   does not start with '<' or a quote; no '{' in IRIs; @prefix lines, comments, blank lines), into EVERY prior database satisfying the invariant whose prefix table is sane
-   (alphanumeric names, IRIs not starting with '<').  Prefixes declared by earlier loads stay in scope in
+   does not start with '<' or a quote; no '{' in IRIs; one-level quoted triples as subject or object of a plain
+   statement; @prefix lines, comments, blank lines), into EVERY prior database satisfying the invariant whose prefix table is sane
+   (alphanumeric names, IRIs made of IRI characters).  A statement with a quoted triple goes through
+   encode_term_star, which re-cleans the other terms of that statement: class known_C13_ttl_reclean (the Turtle
+   side of finding C13-literal-recleaned).  Prefixes declared by earlier loads stay in scope in
    parse_turtle, so the document's quads are read under `d_pref x` (= triples_of doc when that table is empty).
-   Quoted triples and the `{| |}` annotation syntax: modelled + correspondence only. *)
+   Nested quoted triples, prefixed names inside quoted triples and the `{| |}` annotation syntax: modelled +
+   correspondence only. *)
 Theorem C13_turtle :
   forall (doc : list item) (x : db),
-    wf_doc_ttl doc = true -> db_ok x -> pref_ok (d_pref x) ->
-    next_id (d_dict x) + 4 * N.of_nat (length (quads_from (d_pref x) doc)) <= QBIT ->
-    db_ok (load_ttl (render_doc doc) x) /\
+    wf_doc_ttl doc = true -> known_C13_ttl_reclean doc = false -> db_okq x -> pref_ok (d_pref x) ->
+    next_id (d_dict x) + 9 * N.of_nat (length (quads_from (d_pref x) doc)) <= QBIT ->
+    db_okq (load_ttl (render_doc doc) x) /\
     forall lq, In lq (den (load_ttl (render_doc doc) x)) <-> In lq (den x) \/ In lq (map lq_of4 (quads_from (d_pref x) doc)).
 Proof. exact ttl_main. Qed.
 Print Assumptions C13_turtle.
@@ -167,8 +173,8 @@ Print Assumptions C13_turtle.
 Theorem C13_formats_agree_partial :
   forall (doc : list item) (x : db),
     wf_doc_nt doc = true -> wf_doc_ttl doc = true ->
-    known_C13_reclean doc = false -> db_ok x -> pref_ok (d_pref x) ->
-    next_id (d_dict x) + 4 * N.of_nat (length doc) <= QBIT ->
+    known_C13_reclean doc = false -> db_okq x -> pref_ok (d_pref x) ->
+    next_id (d_dict x) + 10 * N.of_nat (length doc) <= QBIT ->
     forall lq,
       (In lq (den (load_nt (render_doc doc) x)) <-> In lq (den (load_nq (render_doc doc) x))) /\
       (In lq (den (load_nt (render_doc doc) x)) <-> In lq (den (load_ttl (render_doc doc) x))) /\
@@ -183,13 +189,15 @@ Definition ex_doc : list item :=
    IStmt P0 (TIri iA) (TIri iB) (TLit [LPlain 116; LEsc 116; LEsc 34; LHex4 [48;48;101;57]; LPlain 60] (SLang [101;110])) None;
    IBlank [32];
    IStmt (mkPad [9] [32;32] [9] [32] [] [13]) (TBnode [98;49]) (TIri iB) (TLit [LPlain 53] (SDt iC)) (Some (TIri iE));
-   IStmt P0 (TIri iA) (TIri iB) (TIri iC) (Some (TBnode [103]))].
+   IStmt P0 (TIri iA) (TIri iB) (TIri iC) (Some (TBnode [103]));
+   IStmt P0 (TQuoted (TIri iA) (TIri iB) (TLit [LPlain 108; LPlain 32; LPlain 108] SNone)) (TIri iB)
+            (TQuoted (TBnode [98]) (TIri iB) (TLit [LPlain 53] (SDt iC))) None].
 Example C13_example_hypotheses :
-  wf_doc_nq ex_doc = true /\ known_C13_reclean ex_doc = false /\ db_ok wa_db /\
-  next_id (d_dict wa_db) + 4 * N.of_nat (length (triples_of ex_doc)) <= QBIT /\
-  length (den (load_nq (render_doc ex_doc) wa_db)) = 4%nat.
+  wf_doc_nq ex_doc = true /\ known_C13_reclean ex_doc = false /\ db_okq wa_db /\
+  next_id (d_dict wa_db) + 10 * N.of_nat (length (triples_of ex_doc)) <= QBIT /\
+  length (den (load_nq (render_doc ex_doc) wa_db)) = 5%nat.
 Proof.
-  split; [vm_compute; reflexivity|]. split; [vm_compute; reflexivity|]. split; [exact wa_db_ok|].
+  split; [vm_compute; reflexivity|]. split; [vm_compute; reflexivity|]. split; [exact wa_db_okq|].
   split; [vm_compute; discriminate | vm_compute; reflexivity].
 Qed.
 
@@ -215,8 +223,9 @@ Proof. repeat split; vm_compute; reflexivity. Qed.
 Definition ex_ttl : list item :=
   [IPrefix nEX iE; IStmt P0 (TPname nEX [115]) (TPname nEX [112]) (TLit [LPlain 118; LEsc 34; LPlain 32; LPlain 119] SNone) None;
    IStmt P0 (TBnode [98;49]) (TIri iB) (TIri iC) None; IComment [] [99];
+   IStmt P0 (TQuoted (TIri iA) (TIri iB) (TLit [LPlain 120; LPlain 32; LPlain 121] SNone)) (TIri iB) (TLit [LPlain 118] (SLang [101;110])) None;
    IList (TPname nEX [115]) [(TPname nEX [112], [TIri iA; TPname nEX [111]]); (TIri iB, [TLit [LPlain 120] SNone])]].
 Example C13_example_turtle :
-  wf_doc_ttl ex_ttl = true /\ length (den (load_ttl (render_doc ex_ttl) wa_db)) = 6%nat.
-Proof. split; vm_compute; reflexivity. Qed.
+  wf_doc_ttl ex_ttl = true /\ known_C13_ttl_reclean ex_ttl = false /\ length (den (load_ttl (render_doc ex_ttl) wa_db)) = 7%nat.
+Proof. repeat split; vm_compute; reflexivity. Qed.
 
